@@ -52,6 +52,22 @@ func runC13(c *fw.Ctx) {
 	w.GovPct, w.VetoPct, w.LowGasPct = 0, 0, 0
 	w.NestedPct = 0 // no authz grants exist in these histories, so every MsgExec probe is unauthorised
 	w.Ent, w.Reg, w.Stream = 35, 30, 20
+	// whatever the message and whoever signed it: no transaction may hand an existing registration
+	// to another owner or swap the parties of an existing stream (only its own signer's entities are
+	// its to change, and ownership is not changeable at all)
+	e.Monitors = append(e.Monitors, &Monitor{Name: "c13-ownership", AfterTx: func(e *Env, tx *TxPlan, pre, post *lab.Obs, resp abci.ResponseDeliverTx) {
+		for _, w := range pre.Wrk {
+			if w2 := findWrk(post, w.WrkchainId); w2 != nil && ownerHex(w2.Owner) != ownerHex(w.Owner) {
+				c.Violate("not-entitled-changed-state", "wrkchain-owner-replaced", "tx %s (code %d) replaced the owner of WRKChain %d: %s -> %s", tx.Desc, resp.Code, w.WrkchainId, w.Owner, w2.Owner)
+			}
+		}
+		for _, b := range pre.Beacons {
+			if b2 := findBeacon(post, b.BeaconId); b2 != nil && ownerHex(b2.Owner) != ownerHex(b.Owner) {
+				c.Violate("not-entitled-changed-state", "beacon-owner-replaced", "tx %s (code %d) replaced the owner of BEACON %d: %s -> %s", tx.Desc, resp.Code, b.BeaconId, b.Owner, b2.Owner)
+			}
+		}
+		c.Count("ownership_checks", int64(len(pre.Wrk)+len(pre.Beacons)))
+	}})
 	points := r.Range(2, 3)
 	// a third of the histories move to a fresh chain initialised from an export before a probe point
 	reimportAt := -1
